@@ -54,6 +54,18 @@ def gen(rng, tier):
         f = "y ~ " + rng.choice(["0 + S(f)", "0 + C(f, Sum)", "x + S(f)", "0 + S(f):g", "x + (0 + S(f) | g)", "0 + f",
                                  "S(f, 'mean')", "0 + C(f, Sum('mean'))"])
         cases.append({"formula": f, "frame": fr, "na": "drop", "chain": [], "kind": "mean-level"})
+    # all-integer matrices holding integers beyond 2**53 (identifiers, nanosecond counts): every view is exact
+    for _ in range(60 if tier == "thorough" else 8):
+        fr = gen_dm.make_frame(rng)
+        nrows = len(fr["columns"][0]["values"])
+        big = [2 ** 53 + 1, 1700000000123456789, 7, -(2 ** 53) - 3, 2 ** 62 + 1]
+        for col in fr["columns"]:
+            if col["name"] == "z":
+                col["values"] = [big[j % len(big)] + j // len(big) for j in range(nrows)]
+                col.pop("dtype", None)
+        f = rng.choice(["z ~ x + f", "z ~ 1", "y ~ 0 + z", "y ~ z + f", "z ~ f + (1 | g)", "y ~ f + (0 + z | g)", "z ~ z:f"])
+        new, _ = _C10._new_frame(rng, fr)
+        cases.append({"formula": f, "frame": fr, "na": "drop", "chain": [new], "kind": "big-integers"})
     # user-defined codings (subclasses of formulae.categorical.Encoding, the documented extension point) whose
     # contrast matrices hold fractions: every view of a container shows the same numbers (decided by the oracle:
     # the model knows the built-in codings only)
@@ -187,6 +199,10 @@ def _check_container(obj, what, nrows, labels=None, mean_level=False):
         pass
     if not np.array_equal(np.asarray(obj), M, equal_nan=True):
         return f"{what}: numpy conversion differs from design_matrix"
+    # np.array(obj) makes a copy: the same numbers in the same dtype (an integer matrix stays exact)
+    A = np.array(obj)
+    if A.dtype != M.dtype or not np.array_equal(A, M, equal_nan=True) or (M.dtype.kind in "iu" and A.tolist() != M.tolist()):
+        return f"{what}: np.array(obj) is {A.dtype} {A.reshape(-1)[:3].tolist()}..., design_matrix is {M.dtype} {M.reshape(-1)[:3].tolist()}..."
     for fn in (str, repr):
         try:
             txt = fn(obj)
@@ -233,6 +249,9 @@ def oracle(c):
             return f"{f!r}: response has {R.shape[0]} rows for {n} observations"
         if not np.array_equal(np.asarray(d.response), R):
             return f"{f!r}: numpy conversion of the response differs"
+        A = np.array(d.response)
+        if A.dtype != R.dtype or (R.dtype.kind in "iu" and A.tolist() != R.tolist()):
+            return f"{f!r}: np.array(response) is {A.dtype} {A.reshape(-1)[:3].tolist()}, design_matrix is {R.dtype} {R.reshape(-1)[:3].tolist()}"
         try:
             txt = str(d.response)
             if f"shape: {R.shape}" not in txt:
